@@ -518,7 +518,7 @@ def main(argv):
         # every variant under a rotating pair of option sets (all option sets are covered across variants)
         for vi, (var, desc, kind, nb, role) in enumerate(vs):
             roles[role] = roles.get(role, 0) + 1
-            k = 2 if not thorough else 6
+            k = (1 if kind in ("pragma", "nonce") else 2) if not thorough else 6
             for j in range(k):
                 opt = opts_all[(vi * k + j + bi) % len(opts_all)]
                 if prog.subs and opt[0] < 4:
@@ -541,7 +541,7 @@ def main(argv):
         p = Prog(("seq", G.POP1, G.APPROVE))
         orc.pair(p, Prog(G.apply_insert(p.main, (), 3, "end")), opt, "directed: Comment('end') after Approve() in main", "comment-stmt")
     # random programs (main routine only), sampled insertion points, stacked annotations
-    nrand = 400 if thorough else 60
+    nrand = 400 if thorough else 40
     hist = {}
     for i in range(nrand):
         version, app, ss, fp = random_case_params(rng)
